@@ -103,10 +103,40 @@ ASSUMPTIONS = ["NumPy 2.x defines the expected tensor products, norms and singul
                "floating tolerance: 8*eps*n reassociation bound for products and norms, 64*eps*||A||_F for decompositions",
                "svd_compressed: the tolerance is widened by the condition number of the re-drawn Gaussian test matrix"]
 BUDGET = {"quick": 200, "thorough": 800}
-FLOORS = {"quick": {"evaluations": 1300, "distinct_nontrivial": 1100, "counters": {}, "sets": {"einsum_specs": 200},
+FLOORS = {"quick": {"evaluations": 2000, "distinct_nontrivial": 1700, "counters": {}, "sets": {"einsum_specs": 280},
                     "max_skipped_fraction": 0.25},
-          "thorough": {"evaluations": 20000, "distinct_nontrivial": 16000, "counters": {}, "sets": {"einsum_specs": 2400},
+          "thorough": {"evaluations": 30000, "distinct_nontrivial": 24000, "counters": {}, "sets": {"einsum_specs": 2400},
                        "max_skipped_fraction": 0.25}}
+# counters: ~45 % of the smallest count of the five quick seeds (0 1 2 7 12345) on the unchanged tree; thorough = quick floor x 14
+# (the random stream is 15.7 times longer).  A run in which a family never executed is INCONCLUSIVE.
+_QF = {
+    "coerce_signs_checked": 285, "compared": 1830, "compared_cholesky": 8, "compared_dot": 81, "compared_einsum": 303,
+    "compared_matmul": 151, "compared_norm": 154, "compared_outer": 61, "compared_qr_sfqr": 49,
+    "compared_qr_tsqr": 197, "compared_svd_compressed": 94, "compared_svd_single": 15, "compared_svd_tsqr": 186,
+    "compared_svd_tsqr-of-transpose": 81, "compared_tensordot": 284, "compared_vdot": 59, "complex_matrix": 56,
+    "contracted_axis_3_blocks": 370, "contracted_axis_5_blocks": 112, "dot_0d_operand": 12, "dot_method": 19,
+    "einsum_dtype_keyword": 71, "einsum_dtype_keyword_changes_dtype": 57, "einsum_ellipsis": 82,
+    "einsum_explicit_path": 42, "einsum_four_operands": 36, "einsum_named_broadcast": 8, "einsum_numpy_operand": 36,
+    "einsum_optimize": 174, "einsum_repeated_index": 143, "einsum_spaces": 31, "einsum_split_every_dict": 40,
+    "einsum_sublist_format": 63, "einsum_uppercase": 19, "entry_np": 89, "entry_sfqr": 15, "entry_tsqr": 20,
+    "entry_tsqr_svd": 11, "form_np_func": 80, "form_np_left": 82, "form_np_right": 86, "integer_matrix": 28,
+    "norm_3d_or_4d": 53, "norm_axis_pair_reversed": 23, "norm_flattened": 12, "norm_keepdims": 65, "norm_matrix": 67,
+    "norm_negative_axis": 73, "norm_ord_-1": 11, "norm_ord_-2": 9, "norm_ord_-3": 5, "norm_ord_-inf": 16,
+    "norm_ord_0": 7, "norm_ord_0.5": 7, "norm_ord_1": 13, "norm_ord_2": 10, "norm_ord_3": 3, "norm_ord_None": 31,
+    "norm_ord_fro": 13, "norm_ord_inf": 12, "norm_ord_nuc": 6, "norm_through_svd": 12, "norm_vector": 90,
+    "outer_0d_operand": 17, "rank_deficient_or_zero": 226, "sfqr_zero_width_blocks": 9,
+    "shape_contradicts_chunking": 55, "siblings_built": 956, "siblings_computed_together": 135,
+    "siblings_with_different_values": 300, "square_sfqr": 15, "square_tsqr": 40, "square_tsqr-of-transpose": 9,
+    "svd_full_matrices": 6, "svdc_accuracy_checked": 90, "svdc_compute_flag": 9, "svdc_iterator_QR": 30,
+    "svdc_power_iterations": 47, "svdc_truncated": 58, "svdc_two_dimensional_grid": 51, "tensordot_axes_as_list": 40,
+    "tensordot_axes_default": 15, "tensordot_negative_int_pair": 8, "tensordot_negative_left_axis": 36,
+    "tensordot_three_axes": 10, "tsqr_recursive": 130, "tsqr_recursive_short_block_not_last_of_group": 46,
+    "tsqr_recursive_two_levels": 48, "tsqr_short_blocks": 326, "tsqr_zero_height_blocks": 77,
+    "tsqr_zero_height_blocks_recursive": 29, "unknown_chunks": 66, "unknown_chunks_short_blocks": 40,
+    "vdot_complex_left": 23, "vdot_shapes_differ": 45, "zero_length_axis": 61,
+}
+FLOORS["quick"]["counters"].update(_QF)
+FLOORS["thorough"]["counters"].update({k: v * 14 for k, v in _QF.items()})
 EXHAUSTIVE_SPACE = ("all chunkings of (3,2)x(2,3) under tensordot axes=1 and axes=([0,1],[1,0]); all 32 row chunkings of a "
                     "(6,2) matrix and all 32 column chunkings of a (2,6) matrix under qr and svd")
 CLAIM = ("Every generated tensor product and norm was computed by the real dask.array and compared with NumPy (shape, dtype, "
@@ -360,7 +390,7 @@ def _gen_einsum(rng):
     nops = rng.choice((1, 2, 2, 2, 2, 3, 3, 4))
     use_ell = rng.random() < 0.3
     ell_shape = [rng.randint(1, 3) for _ in range(rng.randint(1, 2))] if use_ell else []
-    bcast = rng.random() < 0.06            # a named index of length 1 in one operand against length n elsewhere
+    bcast = rng.random() < 0.12            # a named index of length 1 in one operand against length n elsewhere
     subs, shapes, long_axes = [], [], []
     for o in range(nops):
         nidx = rng.choice((0, 1, 1, 2, 2, 2, 3))
@@ -493,7 +523,7 @@ def _gen_matrix(rng, kind):
         elif u < 0.2:
             d["entry"] = "np"
             d["coerce_signs"] = True              # np.linalg.svd has no such keyword
-        elif u < 0.215:
+        elif u < 0.23:
             d["full_matrices"] = True
     return d
 
